@@ -42,6 +42,79 @@ Proof. unfold w32. apply N.mod_mod. discriminate. Qed.
 Lemma file_key_w32 name pos size fx : file_key name (w32 pos) size fx = file_key name pos size fx.
 Proof. unfold file_key. rewrite w32_idem. reflexivity. Qed.
 
+(* ---- sector splitting ------------------------------------------------------------------- *)
+Lemma split_nil fuel n : split_sectors fuel n [] = [].
+Proof. destruct fuel; reflexivity. Qed.
+
+Lemma split_cons fuel n l : l <> [] -> split_sectors (S fuel) n l = firstn n l :: split_sectors fuel n (skipn n l).
+Proof. destruct l; [congruence | reflexivity]. Qed.
+
+Lemma concat_split fuel n : forall bs, (0 < n)%nat -> (length bs <= fuel)%nat -> concat (split_sectors fuel n bs) = bs.
+Proof.
+  induction fuel as [|fuel IH]; intros bs Hn Hl.
+  - destruct bs; [reflexivity | cbn [length] in Hl; lia].
+  - destruct bs as [|x bs]; [reflexivity|].
+    cbn [split_sectors concat]. rewrite IH; [apply firstn_skipn | exact Hn |].
+    rewrite skipn_length. cbn [length] in *. lia.
+Qed.
+
+(* a list of blobs with the lengths of the sectors of bs splits back into itself *)
+Lemma split_same_shape n : forall f1 f2 bs (ss : list (list N)),
+  (0 < n)%nat -> (length bs <= f1)%nat -> (length (concat ss) <= f2)%nat ->
+  map (@length N) ss = map (@length N) (split_sectors f1 n bs) ->
+  split_sectors f2 n (concat ss) = ss.
+Proof.
+  induction f1 as [|f1 IH]; intros f2 bs ss Hn H1 H2 Hs.
+  - cbn [split_sectors map] in Hs. destruct ss; [|discriminate]. apply split_nil.
+  - destruct bs as [|x bs].
+    + cbn [split_sectors map] in Hs. destruct ss; [|discriminate]. apply split_nil.
+    + cbn [split_sectors map] in Hs. destruct ss as [|s r]; [discriminate|].
+      cbn [map] in Hs. injection Hs as Hls Hr.
+      rewrite firstn_length in Hls.
+      cbn [concat] in *. rewrite app_length in H2.
+      assert (Hpos : (0 < length s)%nat) by (rewrite Hls; cbn [length]; lia).
+      destruct f2 as [|f2]; [lia|].
+      rewrite split_cons by (intro Esr; apply (f_equal (@length N)) in Esr; rewrite app_length in Esr; cbn [length] in Esr; lia).
+      destruct (Nat.le_gt_cases n (length (x :: bs))) as [Hge | Hlt].
+      * assert (Els : length s = n) by lia.
+        rewrite (firstn_app_exact s (concat r) n Els), (skipn_app_exact s (concat r) n Els).
+        f_equal. apply (IH f2 (skipn n (x :: bs))); [exact Hn | | lia | exact Hr].
+        rewrite skipn_length. cbn [length] in *. lia.
+      * rewrite skipn_all2 in Hr by lia. rewrite split_nil in Hr. destruct r; [|discriminate].
+        cbn [concat]. rewrite app_nil_r.
+        rewrite firstn_all2 by lia. rewrite skipn_all2 by lia. rewrite split_nil. reflexivity.
+Qed.
+
+Lemma wf_firstn n : forall bs, wf_bytes bs -> wf_bytes (firstn n bs).
+Proof. induction n as [|n IH]; intros [|x bs] H; cbn [firstn]; try constructor; inversion H; subst; [assumption | apply IH; assumption]. Qed.
+Lemma wf_skipn n : forall bs, wf_bytes bs -> wf_bytes (skipn n bs).
+Proof. induction n as [|n IH]; intros [|x bs] H; cbn [skipn]; try assumption. inversion H; subst. apply IH; assumption. Qed.
+
+Lemma split_wf fuel n : forall bs, wf_bytes bs -> Forall wf_bytes (split_sectors fuel n bs).
+Proof.
+  induction fuel as [|fuel IH]; intros bs H; [constructor|].
+  destruct bs as [|x bs]; [constructor|]. cbn [split_sectors]. constructor.
+  - apply wf_firstn, H.
+  - apply IH, wf_skipn, H.
+Qed.
+
+Lemma mapi_enc_shape key : forall ss i,
+  map (@length N) (mapi (fun i s => encrypt_data s (add32 key i)) i ss) = map (@length N) ss.
+Proof. induction ss as [|s r IH]; intro i; cbn [mapi map]; [reflexivity|]. rewrite encrypt_data_length, IH. reflexivity. Qed.
+
+Lemma mapi_dec_enc key : forall ss i, Forall wf_bytes ss ->
+  mapi (fun i s => decrypt_file_data s (add32 key i)) i (mapi (fun i s => encrypt_data s (add32 key i)) i ss) = ss.
+Proof.
+  induction ss as [|s r IH]; intros i H; cbn [mapi]; [reflexivity|].
+  inversion H as [|? ? Hs Hr]; subst. rewrite bytes_decrypt_encrypt by exact Hs. rewrite IH by exact Hr. reflexivity.
+Qed.
+
+Lemma concat_length_shape (a b : list (list N)) : map (@length N) a = map (@length N) b -> length (concat a) = length (concat b).
+Proof.
+  revert b. induction a as [|x a IH]; intros [|y b] H; try discriminate; [reflexivity|].
+  cbn [map] in H. injection H as H1 H2. cbn [concat]. rewrite !app_length, H1, (IH b H2). reflexivity.
+Qed.
+
 Section RoundTrip.
   Variable compress : N -> list N -> option (list N).
   Variable decompress : N -> list N -> N -> option (list N).
@@ -169,5 +242,69 @@ Section RoundTrip.
       destruct crc; cbn [andb]; [|reflexivity].
       rewrite (L4 eq_refl), (S4 eq_refl), le_value_bytes_of_u32 by apply adler32_lt.
       rewrite N.eqb_refl. reflexivity.
+  Qed.
+  (* flag words of a file stored as a plain run of sectors *)
+  Lemma stored_flags (enc : N) :
+    enc < 3 ->
+    let fl := enc_flags enc + fl_exists in
+    has_flag fl fl_patch_file = false /\ has_flag fl fl_single_unit = false /\
+    has_flag fl fl_compress = false /\ has_flag fl fl_sector_crc = false /\
+    has_flag fl fl_encrypted = negb (enc =? 0) /\ has_flag fl fl_fix_key = (enc =? 2).
+  Proof.
+    intro H. assert (E : enc = 0 \/ enc = 1 \/ enc = 2) by lia.
+    destruct E as [-> | [-> | ->]]; vm_compute; repeat split.
+  Qed.
+
+  Lemma shrunk_flags (crc : bool) (enc : N) :
+    enc < 3 -> has_flag ((if crc then fl_sector_crc else 0) + fl_compress + enc_flags enc) fl_compress = true.
+  Proof.
+    intro H. assert (E : enc = 0 \/ enc = 1 \/ enc = 2) by lia.
+    destruct E as [-> | [-> | ->]]; destruct crc; vm_compute; reflexivity.
+  Qed.
+
+  (* a file longer than one sector that no sector of which shrank: stored as a run of
+     (separately encrypted) sectors, read back whole *)
+  Theorem stored_sectors_roundtrip (a : archive) (ssz : N) (crc : bool) (f : file_spec) (pos : N) (bytes : list N) (csize flags : N) :
+    f_name f = name -> f_enc f < 3 -> wf_bytes (f_data f) ->
+    0 < ssz -> ssz < lenN (f_data f) -> lenN (f_data f) < M32 ->
+    write_file compress ssz crc f pos = Some (bytes, csize, flags) ->
+    has_flag flags fl_compress = false ->
+    carries a pos bytes csize (lenN (f_data f)) flags ssz ->
+    read_file decompress a name = ROk (f_data f).
+  Proof.
+    intros Hn Henc Hwf Hpos0 Hsz Hlt Hw Hnc ((pre & post & Ea & Epre) & Hss & Hpos & Hfind).
+    unfold write_file in Hw.
+    replace (lenN (f_data f) <=? ssz) with false in Hw by (symmetry; apply N.leb_gt; exact Hsz).
+    set (data := f_data f) in *.
+    destruct (compress_sectors compress (f_comp f) (sectors ssz data)) as [[cs shrunk]|] eqn:Ecs; [|discriminate].
+    destruct shrunk; cbn [negb] in Hw.
+    { injection Hw as <- <- <-. rewrite shrunk_flags in Hnc by exact Henc. discriminate. }
+    rewrite Hn in Hw.
+    set (key := file_key name pos (lenN data) (f_enc f =? 2)) in *.
+    set (ss := sectors ssz data) in *.
+    set (body := if f_enc f =? 0 then data else concat (mapi (fun i s => encrypt_data s (add32 key i)) 0 ss)) in *.
+    injection Hw as <- <- <-.
+    assert (Hn0 : (0 < N.to_nat ssz)%nat) by lia.
+    assert (Css : concat ss = data) by (apply concat_split; [exact Hn0 | lia]).
+    assert (Lb : lenN body = lenN data).
+    { unfold body. destruct (f_enc f =? 0); [reflexivity|]. unfold lenN. f_equal.
+      rewrite (concat_length_shape _ ss) by apply mapi_enc_shape. rewrite Css. reflexivity. }
+    destruct (stored_flags (f_enc f) Henc) as (F1 & F2 & F3 & F4 & F5 & F6).
+    unfold read_file. rewrite Hfind. cbn [b_flags b_pos b_csize b_fsize].
+    rewrite F1, F2, F3, F4, F5, F6. cbn [orb negb andb].
+    assert (Hlen : lenN (a_bytes a) <? pos + lenN body = false).
+    { apply N.ltb_ge. rewrite Ea. unfold lenN in *. rewrite !app_length. lia. }
+    rewrite Hlen.
+    assert (Sl : slice (a_bytes a) pos (lenN body) = body) by (rewrite Ea, <- Epre; apply slice_mid).
+    rewrite Sl, Hss.
+    destruct (f_enc f =? 0) eqn:E0; cbn [negb andb]; [reflexivity|].
+    assert (Sp : sectors ssz (concat (mapi (fun i s => encrypt_data s (add32 key i)) 0 ss))
+                 = mapi (fun i s => encrypt_data s (add32 key i)) 0 ss).
+    { unfold sectors. apply (split_same_shape _ (length data) _ data); [exact Hn0 | lia | lia |].
+      rewrite mapi_enc_shape. reflexivity. }
+    unfold body. fold key. rewrite Sp, mapi_dec_enc by (apply split_wf, Hwf).
+    rewrite Css.
+    replace (lenN data <? lenN data) with false by (symmetry; apply N.ltb_irrefl).
+    reflexivity.
   Qed.
 End RoundTrip.
